@@ -48,9 +48,8 @@ func (n *vfNetwork) StopNotify(network.Notifiee) {}
 // after the stores were started, a failing event-bus subscription) leaves no
 // goroutine and no subscription; a successful one is closed cleanly.
 func VfDHTNew() {
-	vfHashBits(vfParam("W"))
-	vfHashFixed()
-	self := peer.ID(vfHashInput("self", nil, 8))
+	vfHashReal() // no hash placement matters here; the real function keeps the native replay exact
+	self := peer.ID("the-local-peer")
 	ps := &vfPeerstore{addrs: map[peer.ID][]ma.Multiaddr{}, protos: map[peer.ID][]protocol.ID{}, protoErr: map[peer.ID]bool{}}
 	nw := &vfNetwork{connected: map[peer.ID]network.Connectedness{}}
 	h := &vfNewHost{fbus: &vfFailBus{}}
@@ -83,6 +82,12 @@ func VfDHTNew() {
 	}
 	vfAssert(err == nil && d != nil, "new/constructor")
 	vfWaitIdle()
+	// the initial mode follows the option, and the node serves exactly in server mode
+	wantServer := d.auto == ModeServer || d.auto == ModeAutoServer
+	vfAssert((d.getMode() == modeServer) == wantServer, "new/initial-mode-follows-the-mode-option")
+	for _, p := range d.serverProtocols {
+		vfAssert(h.handlers[p] == wantServer, "new/stream-handlers-registered-exactly-in-server-mode")
+	}
 	vfAssert(d.Close() == nil, "new/close")
 	vfWaitIdle()
 	vfAssert(vfLiveGoroutines() == 1, "new/close-leaves-no-goroutine")
